@@ -34,6 +34,11 @@ def gen_text_formula(rng, groups=True, rich=True, max_terms=4):
             t = rng.choice([f"{a} + {b} + {a}:{b}", f"{a}/{b}", f"{a}*{b}", f"{a}:({b} + x)"])
         if t not in parts:
             parts.append(t)
+    if rich and rng.random() < 0.12:
+        # interactions of four and five components
+        parts.append(rng.choice(["f:g:x:z", "h:x:z:I(x ** 2)", "f:x:g:scale(z):h", "o:f:center(x):z"]))
+    if groups and rich and rng.random() < 0.08:
+        parts.append(rng.choice(["(1 | g:h:f:o)", "(x | f:g:h:C(k))"]))
     if groups and rng.random() < 0.5:
         fac = rng.choice(["g", "h", "g:h", "C(k)", "k", "ou"])
         eff = rng.choice(["1", "x", "center(x)", "0 + f", "scale(z)", "f", "bs(x, df=3)", "0 + poly(z, 2)", "0 + bs(x, knots=KN)", "f:x"])
